@@ -27,7 +27,7 @@ META = {
     "assumptions": ["labels are concrete (array sizes, hashing): relabellings are drawn from the pool "
                     "{0,1,2,3,5,7,11,42,99999,100000,250000} incl. both sides of the 1e5 switch of _sum_by_group_numba",
                     "reals instead of doubles", "same arbitrary pre-state / same update vector in both runs (identity-named)"],
-    "bound": {"quick": "11 base structures x 2 relabellings (labels + creation order; row permutations) x {numpy, numba py_func}, "
+    "bound": {"quick": "12 base structures x 2 relabellings (labels + creation order; row permutations) x {numpy, numba py_func}, "
                        "hydraulic and sequential",
               "thorough": "core + 30 random structures x 4 relabellings"},
     "outside": ["symbolic labels", "networks larger than J<=6"],
@@ -123,7 +123,7 @@ def relabel(spec, rng, labels=True, order=True, rows=True, cyclic=False):
 def jobs(tier, seed):
     out = []
     specs = [catalog.w_line3(), catalog.w_mesh4(), catalog.w_components(), catalog.w_oos(), catalog.g_line3(),
-             catalog.g_components(), catalog.w_pi_valve(), catalog.w_circ_loop(), catalog.w_circ_mass(), catalog.w_heat_line(), catalog.w_three_pi()]
+             catalog.g_components(), catalog.w_pi_valve(), catalog.w_circ_loop(), catalog.w_circ_mass(), catalog.w_heat_line(), catalog.w_three_pi(), catalog.w_pump_standby()]
     rng = random.Random(6000 + seed)
     for i in range(0 if tier == "quick" else 30):
         specs.append(catalog.random_spec(rng, name="rand%d_s%d" % (i, seed)))
